@@ -18,8 +18,9 @@ INFO = {
                     'headers a middleware adds (ETag, Date, Set-Cookie, Vary, Cache-Control) are not differences'],
 }
 
-MWS = ['gzip', 'cache', 'stats', 'profile', 'cookie', 'ctxproc', 'simplectx', 'getparam', 'postdata', 'scriptroot']
-SCENARIOS = ['small', 'large', 'random', 'binary', 'empty', 'streamed', 'ctx', 'ctxlist', 'redirect', 'raise403', 'ret404', 'raise500',
+MWS = ['gzip', 'cache', 'stats', 'profile', 'cookie', 'ctxproc', 'simplectx', 'getparam', 'postdata', 'scriptroot',
+       'ctxproc-names', 'simplectx-names']
+SCENARIOS = ['small', 'large', 'random', 'binary', 'empty', 'streamed', 'ctx', 'ctxfalsy', 'ctxlist', 'redirect', 'raise403', 'ret404', 'raise500',
              'ret503', 'nb403', 'boom', 'unknown', 'wrongmethod', 'form', 'status201', 'nocontent', 'preencoded', 'unicode']
 ENCODINGS = [None, 'gzip', 'gzip;q=0', '*', 'identity', 'deflate, gzip;q=0.5', 'gzip, deflate, br', 'GZIP', 'gzip;q=0.0, identity', 'x-gzip']
 RAND = bytes((i * 7919 + (i >> 3) * 104729 + (i * i) % 251) % 256 for i in range(3000))
@@ -34,6 +35,9 @@ def make_mw(name):
     return {'gzip': lambda: m.GzipMiddleware(), 'cache': lambda: m.HTTPCacheMiddleware(), 'stats': lambda: StatsMiddleware(),
             'profile': lambda: m.SimpleProfileMiddleware(), 'cookie': lambda: SignedCookieMiddleware(),
             'ctxproc': lambda: m.ContextProcessor(), 'simplectx': lambda: m.SimpleContextProcessor(),
+            # default (non-overwriting) processors whose names are all already present in every context the scenarios render
+            'ctxproc-names': lambda: m.ContextProcessor(defaults={'a': 'DEFAULT-A', 'c': 'DEFAULT-C'}),
+            'simplectx-names': lambda: m.SimpleContextProcessor('a', c='DEFAULT-C'),
             'getparam': lambda: m.GetParamMiddleware(['zq_unused']), 'postdata': lambda: PostDataMiddleware(['zq_unused2']),
             'scriptroot': lambda: ScriptRootMiddleware()}[name]()
 
@@ -55,6 +59,7 @@ def build(stack, level):
         'empty': lambda: Response(''),
         'streamed': lambda: Response(gen(), mimetype='text/plain'),
         'ctx': lambda: {'a': 1, 'b': ['x', 'y' * 500], 'c': None},
+        'ctxfalsy': lambda: {'a': 0, 'c': '', 'd': [], 'e': False},
         'ctxlist': lambda: [1, 2, {'k': 'v' * 300}],
         'redirect': lambda: redirect('/small'),
         'status201': lambda: Response('created ' * 100, status=201),
@@ -88,7 +93,7 @@ def build(stack, level):
     app_mws = mws if level == 'app' else []
     routes = []
     for name, ep in eps.items():
-        render = render_basic if name in ('ctx', 'ctxlist') else None
+        render = render_basic if name in ('ctx', 'ctxlist', 'ctxfalsy') else None
         routes.append(Route('/' + name, ep, render, middlewares=route_mws))
     for name, ep in [('raise403', raise403), ('ret404', ret404), ('raise500', raise500), ('ret503', ret503), ('nb403', nb403), ('boom', boom)]:
         routes.append(Route('/' + name, ep, middlewares=route_mws))
